@@ -276,6 +276,44 @@ func scenC16(c *ctx) {
 	}
 }
 
+// randGated: rounds of W concurrent RandomSecret calls that meet inside the random source (see rendezvous)
+func (c *ctx) randGated(prop string, rounds int) {
+	for r := 0; r < rounds; r++ {
+		w := []int{2, 3, 4, 8, 16}[r%5]
+		kind := []string{"rnd", "lin"}[r%2]
+		st := installStream(kind, uint64(c.rng.Int63()), false)
+		st.gate = &rendezvous{}
+		tag := fmt.Sprintf("%s/gated%d-%s-%d", prop, w, kind, r)
+		c.rec.Hold()
+		id := 0
+		for round := 0; round < 3; round++ {
+			st.gate.arm(w)
+			evs := make([]Event, w)
+			var wg sync.WaitGroup
+			for i := 0; i < w; i++ {
+				id++
+				a := uint8(c.rng.Intn(3))
+				wg.Add(1)
+				go func(i, id int) {
+					defer wg.Done()
+					evs[i] = doRandomSecret(fmt.Sprintf("%s/%d", tag, id), a)
+				}(i, id)
+			}
+			wg.Wait()
+			for i := range evs {
+				m := evs[i].X.(map[string]any)
+				m["stream"], m["conc"] = kind, true
+				c.rec.Emit(evs[i])
+			}
+		}
+		st.gate = nil
+		end := newEvent("StreamEnd", tag+"/end")
+		end.X = map[string]any{"pos": st.pos}
+		c.rec.Emit(end)
+		c.rec.Release()
+	}
+}
+
 // ---------------- C08 ----------------
 func scenC08(c *ctx) {
 	id := 0
@@ -326,7 +364,7 @@ func scenC08(c *ctx) {
 		}
 		for i := range evs {
 			m := evs[i].X.(map[string]any)
-			m["stream"] = kind
+			m["stream"], m["conc"] = kind, workers > 1
 			c.rec.Emit(evs[i])
 		}
 		end := newEvent("StreamEnd", fmt.Sprintf("C08/%s/end", tag))
@@ -334,6 +372,7 @@ func scenC08(c *ctx) {
 		c.rec.Emit(end)
 		c.rec.Release()
 	}
+	c.randGated("C08", c.n(6, 40))
 	for r := 0; r < c.n(6, 60); r++ {
 		batch(fmt.Sprintf("seq-lin-%d", r), "lin", false, 10+c.rng.Intn(20), 1)
 		batch(fmt.Sprintf("seq-rnd-%d", r), "rnd", false, 10+c.rng.Intn(20), 1)
